@@ -84,6 +84,7 @@ type shaper struct {
 	callers  []*ssa.Function
 	typeTags bool
 	nilUses  []nilUse // interface values converted to key text: each needs a dominating nil test
+	viaFloat []nilUse // interface values widened to float64 and then rendered: 64-bit integers must have been dealt with
 }
 
 type nilUse struct {
@@ -355,6 +356,9 @@ func (sh *shaper) call(c *ssa.Call) *Shape {
 		}
 		return &Shape{K: "num", Of: c}
 	case "strconv.FormatFloat", "strconv.FormatBool":
+		if name == "strconv.FormatFloat" {
+			sh.noteViaFloat(args[0])
+		}
 		return &Shape{K: "num", Of: c}
 	case "strconv.Quote":
 		return &Shape{K: "quoted", Of: c}
@@ -721,7 +725,68 @@ func nilGuarded(at ssa.Instruction, x ssa.Value) bool {
 	return false
 }
 
+// noteViaFloat: f, about to be rendered as key text, is cast.ToFloat64(v) / cast.ToFloat64E(v) of an interface value.
+// float64 has 53 bits: two different int64/uint64 values above 2^53 widen to the same float and so to the same key
+// text, unless the 64-bit integer types were taken by earlier cases of the type switch.
+func (sh *shaper) noteViaFloat(f ssa.Value) {
+	if ex, ok := f.(*ssa.Extract); ok && ex.Index == 0 {
+		f = ex.Tuple
+	}
+	c, ok := f.(*ssa.Call)
+	if !ok {
+		return
+	}
+	cal := c.Call.StaticCallee()
+	if cal == nil || cal.Pkg == nil || cal.Pkg.Pkg.Path() != modPath+"/utils/cast" || (cal.Name() != "ToFloat64" && cal.Name() != "ToFloat64E") || len(c.Call.Args) != 1 {
+		return
+	}
+	if _, isIface := c.Call.Args[0].Type().Underlying().(*types.Interface); !isIface {
+		return
+	}
+	sh.viaFloat = append(sh.viaFloat, nilUse{c, c.Call.Args[0]})
+}
+
+// typesExcludedAt: the dynamic types x cannot have in block b: the cases of a type switch (or `_, ok := x.(T)` tests)
+// that were not taken on the way.
+func typesExcludedAt(b *ssa.BasicBlock, x ssa.Value) map[string]bool {
+	xs := TermOf(x, nil).String()
+	out := map[string]bool{}
+	for _, g := range guardsOf(b) {
+		v, sense := g.Cond, g.Sense
+		for {
+			u, ok := v.(*ssa.UnOp)
+			if !ok || u.Op != token.NOT {
+				break
+			}
+			v, sense = u.X, !sense
+		}
+		ex, ok := v.(*ssa.Extract)
+		if !ok || ex.Index != 1 || sense {
+			continue
+		}
+		ta, ok := ex.Tuple.(*ssa.TypeAssert)
+		if !ok || !ta.CommaOk || (ta.X != x && TermOf(ta.X, nil).String() != xs) {
+			continue
+		}
+		out[ta.AssertedType.String()] = true
+	}
+	return out
+}
+
 func (sh *shaper) nilProblems(probs *[]keyProblem) {
+	for _, u := range sh.viaFloat {
+		ex := typesExcludedAt(u.at.Block(), u.x)
+		var open []string
+		for _, t := range []string{"int", "int64", "uint", "uint64"} {
+			if !ex[t] {
+				open = append(open, t)
+			}
+		}
+		if len(open) > 0 {
+			*probs = append(*probs, keyProblem{fmt.Sprintf("two different values share one key text: %s is widened to float64 at %s and then rendered, and a value of type %s can reach that point; float64 has 53 bits", TermOf(u.x, nil), sh.a.pos(u.at.Pos()), strings.Join(open, "/")),
+				open[len(open)-1] + " 9007199254740992 and 9007199254740993"})
+		}
+	}
 	seen := map[ssa.Instruction]bool{}
 	for _, u := range sh.nilUses {
 		if seen[u.at] {
@@ -1330,6 +1395,9 @@ func (sh *shaper) bytes1(v ssa.Value) *Shape {
 			}
 			return concat(sh.of(x.Call.Args[0]), &Shape{K: "num", Of: x})
 		case "strconv.AppendFloat", "strconv.AppendBool":
+			if len(x.Call.Args) > 1 {
+				sh.noteViaFloat(x.Call.Args[1])
+			}
 			return concat(sh.of(x.Call.Args[0]), &Shape{K: "num", Of: x})
 		case "strconv.AppendQuote", "strconv.AppendQuoteToASCII":
 			return concat(sh.of(x.Call.Args[0]), &Shape{K: "quoted", Of: x})
@@ -1918,6 +1986,8 @@ func (a *A) keyencFunc(f *ssa.Function, resIdx int, o keyencOpts) {
 			kind = "undecided"
 		} else if strings.Contains(p.what, "depends on") {
 			kind = "purity"
+		} else if strings.Contains(p.what, "share one key text") {
+			kind = "lossy-rendering"
 		}
 		c := fname(f) + "#key-" + kind
 		detail := fmt.Sprintf("format %s: %s", strings.Join(shapes, " or "), p.what)
